@@ -302,11 +302,74 @@ def work_workbook(job):
     return acc.result()
 
 
+LIFTED_OVER_REF = [('ABS', 'ABS({x})'), ('ROUND', 'ROUND({x},0)'), ('LEFT', 'LEFT({x},2)'), ('MOD', 'MOD({x},7)'),
+                   ('IF', 'IF({x}>0,1,0)'), ('IFERROR', 'IFERROR({x},0)'), ('*', '{x}*2'), ('neg', '-{x}'), ('&', '{x}&"x"'),
+                   ('=', '{x}=10.5'), ('+', '{x}+{x}'), ('id', '{x}')]
+REF_SOURCES = [('OFFSET', 'OFFSET(A1,0,0,{h},{w})'), ('INDIRECT', 'INDIRECT("A1:{br}")'), ('OFFSET-shifted', 'OFFSET(B2,-1,-1,{h},{w})')]
+
+
+def work_computed_ref(job):
+    """the operand array arrives as a computed reference (OFFSET / INDIRECT) instead of a written range: the array
+    formula must give, over the range and in every member cell, what the same formula over the written range gives
+    (differential: the written-range form is judged by the other sub-checks)"""
+    acc = Acc()
+    for (h, w), target in (((2, 3), (2, 3)), ((2, 3), (3, 4)), ((3, 1), (3, 2)), ((1, 3), (1, 3))):
+        cells = {}
+        for r in range(h + 1):
+            for c in range(w + 1):
+                cells[f'{W.get_column_letter(c + 1)}{r + 1}'] = -(r * 10 + c + 10) if (r + c) % 2 else r * 10 + c + 10.5
+        br = f'{W.get_column_letter(w)}{h}'
+        trng = rng(11, 1, target)
+        members = [f'S!{W.get_column_letter(11 + b)}{1 + a}' for a in range(target[0]) for b in range(target[1])]
+        for lname, ltxt in LIFTED_OVER_REF:
+            ref_formula = '=' + ltxt.format(x=f'A1:{br}')
+            try:
+                rm = W.compile_inmem({'sheets': {'S': dict(cells, **{trng: {'array': ref_formula}})}, 'active': 'S'})
+                want = {a: rm.evaluate(a) for a in [f'S!{trng}'] + members}
+            except Exception:
+                continue            # the written-range form itself is not evaluable: nothing to compare with
+            for sname, stxt in REF_SOURCES:
+                formula = '=' + ltxt.format(x=stxt.format(h=h, w=w, br=br))
+                case = dict(kind='computed-ref', fn=lname, lifted=lname, source=sname, formula=formula, shape=[h, w], target=list(target))
+                acc.add('states')
+                acc.add('distinct_nontrivial')
+                try:
+                    m_ = W.compile_inmem({'sheets': {'S': dict(cells, **{trng: {'array': formula}})}, 'active': 'S'})
+                    got = {}
+                    for a in (members + [f'S!{trng}']) if len(lname) % 2 else ([f'S!{trng}'] + members):
+                        got[a] = m_.evaluate(a)
+                        acc.add('evaluations')
+                except Exception as exc:
+                    acc.violation(dict(case, verdict='raised', exc=type(exc).__name__),
+                                  f'{{{formula}}} in {trng}: {type(exc).__name__}: {str(exc)[-160:]}')
+                    continue
+                bad = [a for a in want if not W.veq(jsonable(got[a]), jsonable(want[a]))]
+                if bad:
+                    flat = [x for a in bad for x in (flatten_any(got[a]))]
+                    addr_not_values = all(x == '#VALUE!' or 'A1:' in str(x) or 'AddressRange' in str(x) or 'AddressCell' in str(x) for x in flat)
+                    acc.violation(dict(case, verdict='computed-ref-differs', cells=bad[:3], observed=jsonable(got[bad[0]]),
+                                       expected=jsonable(want[bad[0]]), address_instead_of_values=addr_not_values),
+                                  f'{{{formula}}} in {trng}: {bad[0]} = {str(got[bad[0]])[:120]!r} but {{{ref_formula}}} gives '
+                                  f'{str(want[bad[0]])[:120]!r}')
+    acc.counts['transitions'] = acc.counts.get('evaluations', 0)
+    return acc.result()
+
+
+def flatten_any(v):
+    if isinstance(v, (tuple, list)):
+        out = []
+        for x in v:
+            out += flatten_any(x)
+        return out
+    return [v]
+
+
 def run(ctx):
     m = 64
     ctx.pmap(work_ctx, [((k + ctx.seed) % m, m, ctx.thorough) for k in range(m)], timeout=12000)
     ctx.pmap(work_workbook, [(k, 32) for k in range(32)], timeout=6000)
     ctx.pmap(work_typemix, [(k, 32) for k in range(32)], timeout=6000)
+    ctx.pmap(work_computed_ref, [(0,)], timeout=1200)
     ctx.counts['traces_validated_against_impl'] = ctx.counts.get('evaluations', 0)
     ctx.extra['shapes'] = len(SHAPES)
     ctx.extra['operators'] = OPS
@@ -318,6 +381,10 @@ def replay(case):
         r = work_typemix((0, 1))
         hits = [m for c, m in r['violations'] if c.get('formula') == case.get('formula') and c.get('values') == case.get('values')
                 and c.get('scalar') == case.get('scalar')]
+        return bool(hits), '\n'.join(hits[:2]) or 'no violation'
+    if case['kind'] == 'computed-ref':
+        r = work_computed_ref((0,))
+        hits = [m for c, m in r['violations'] if all(c.get(k) == case.get(k) for k in ('formula', 'shape', 'target', 'verdict'))]
         return bool(hits), '\n'.join(hits[:2]) or 'no violation'
     if case['kind'] == 'ctx':
         r = work_ctx((0, 1))
